@@ -46,6 +46,11 @@ func raceRunMain(f flags) int {
 			if m := raceWorld(t); m != "" {
 				mismatches++
 				fmt.Printf("MISMATCH world=%d %s\n", idx, m)
+				if strings.HasPrefix(m, "HANG") {
+					// goroutines are left blocked inside the library: this process cannot go on
+					fmt.Printf("RACEDONE worlds=%d mismatches=%d\n", worlds, mismatches)
+					os.Exit(3)
+				}
 				break
 			}
 		}
